@@ -376,6 +376,8 @@ void checkExpectation(const Op& op, const Delivery& d, const std::string& wire, 
   std::string needs = op.str("needs");
   if ((needs == "comments" && !kComments) || (needs == "nan" && !kNaN) || (needs == "inf" && !kInf))
     expect = "InvalidInput";
+  if (needs == "comments-else-any" && !kComments)
+    expect = "any";
   if (!d.msgpack && !kDecodeUnicode && wire.find("\\u") != std::string::npos)
     skipValue = true;  // \uXXXX stays undecoded in this build: the value differs by design
   if (expect == "any")
@@ -1094,6 +1096,7 @@ GenOpts inputOpts(bool mp) {
   g.maxStr = 60;
   g.allowRaw = false;
   g.allowBin = mp;
+  g.extremeDoubles = mp;
   g.allowNonFinite = mp;
   g.allowNulInStr = true;
   g.allowNulInKey = true;  // keys are compared with their size since /repo 509e18d
@@ -1706,17 +1709,21 @@ Plan generate(const std::string& mode, uint64_t seed, uint64_t run) {
     size_t n = size_t(r.range(2000, 30000));
     std::string filler;
     unsigned what = unsigned(r.below(4));
+    bool withFilter = r.chance(1, 3);
+    if (withFilter && r.chance(1, 2))
+      what = 3;  // (where the build has no comments a discarded value is skipped without being validated - see the
+                 //  observations in DESIGN §6 - so with a filter the outcome is predicted for comment builds only)
     for (size_t j = 0; j < n; j++)
       filler += what == 0 ? "/**/" : what == 1 ? "//\n" : what == 2 ? (j & 1 ? "/* x */ " : "//y\n") : " \n";
     unsigned where = unsigned(r.below(4));
     std::string b = where == 0 ? filler + "[1,2]" : where == 1 ? "[" + filler + "1,2]" : where == 2 ? "[1" + filler + ",2]" : "{\"a\":" + filler + "[1,2]}";
     std::string value = where == 3 ? "{\"a\":[u1,u2]}" : "[u1,u2]";
     if (what != 3)
-      op.set("needs", "comments");
+      op.set("needs", withFilter ? "comments-else-any" : "comments");
     op.setq("b", b).set("expect", "Ok").set("value", value).setq("why", "a flat text with a long run of comments or blanks at one place");
     if (where == 3 && L < 2)
       op.set("nl", 2);
-    if (r.chance(1, 3))
+    if (withFilter)
       op.set("filter", where == 3 ? "{\"b\":t}" : "f");
     static const char* ks[] = {"custom", "istream", "astream", "custom"};
     op.set("kinds", ks[r.below(4)]);
